@@ -14,6 +14,7 @@ from harness.simdevice import CliDevice
 from harness.simtransport import AsyncSimTransport, FaultPlan, SimStall, SimTransport, attach, DRIVERS
 
 from scrapli.exceptions import ScrapliConnectionError, ScrapliConnectionNotOpened
+from scrapli.settings import Settings as _Settings
 
 
 class HookError(Exception):
@@ -22,6 +23,27 @@ class HookError(Exception):
 
 class BodyError(Exception):
     """raised by the body of a with-block"""
+
+
+class BodyBaseException(BaseException):
+    """raised by the body of a with-block: a BaseException that is NOT an Exception (stands for KeyboardInterrupt / SystemExit)"""
+
+
+# body letters -> the class user code in the with-body raises (besides 'r' = BodyError); 'Z' = the task is cancelled (asyncio)
+BODY_RAISES = {"T": "ScrapliTimeout", "E": "ScrapliConnectionError", "N": "ScrapliConnectionNotOpened", "A": "ScrapliAuthenticationFailed",
+               "P": "ScrapliPrivilegeError", "V": "ValueError", "K": "BodyBaseException", "Z": "CancelledError"}
+
+
+def body_exception(letter):
+    import scrapli.exceptions as E
+    name = BODY_RAISES[letter]
+    if name == "BodyBaseException":
+        return BodyBaseException("body interrupted")
+    if name == "CancelledError":
+        return asyncio.CancelledError()
+    if name == "ValueError":
+        return ValueError("body failed")
+    return getattr(E, name)("raised by the body of the with-block")
 
 
 class RefusingLogin:
@@ -114,6 +136,7 @@ class FakeNet:
 
     def __init__(self, platform, neg, partial=False, refuse_login=False):
         self.platform, self.neg, self.partial, self.refuse_login = platform, neg, partial, refuse_login
+        self.sync_socket = False     # recv() is called by the real sync TelnetTransport._read (which handles socket.timeout)
         self.device = None
         self.buf = bytearray()
         self.connected = False       # a session exists at the device end and the link is up
@@ -124,6 +147,7 @@ class FakeNet:
         self.trace: list = []
         self.socks: list = []        # every fake OS socket ever created: [open?]
         self.refuse_next_open = False
+        self.rtimeout = False        # a silent device makes the socket read time out (socket.timeout), no operation timer involved
 
     def open_os_sockets(self):
         return sum(1 for s in self.socks if s[0])
@@ -163,6 +187,10 @@ class FakeNet:
             return b""
         if not self.buf:
             self.trace.append(("stall",))
+            if self.rtimeout and self.sync_socket:
+                import socket as _socket
+                self.trace.append(("stallfire", "keep"))
+                raise _socket.timeout("timed out")     # TelnetTransport._read turns this into ScrapliTimeout itself
             raise SimStall()
         chunk = bytes(self.buf)
         self.buf.clear()
@@ -271,6 +299,8 @@ def _driver_cls(platform, stack):
 
 class Rig:
     """one real connection + its instrumentation"""
+    rtimeout = False
+    body_exc = body_exc_name = left_with = None
 
     def __init__(self, case, tmpdir):
         self.case = case
@@ -281,10 +311,14 @@ class Rig:
         self.depth = 0
         self.in_hook = False
         self.in_timeout = False
+        self.rtimeout = False        # reads of a silent device end in ScrapliTimeout raised by the transport read itself (nothing closed)
+        self.body_exc = None         # the exception object that left the body of the current with-block
         self.on_close_raised = False
         self.tclose_raised = False
         self.injected_hook_exc = None
         self.dead_seen = False
+        self.body_exc_name = None    # class name of the exception the with-body of the current operation ended with
+        self.left_with = None        # how that exception left the with statement: same | swallowed | replaced
         self.tmpdir = tmpdir
         self.user_bio: Optional[io.BytesIO] = None
         self.log_path = None
@@ -327,6 +361,7 @@ class Rig:
             self.net = self.t
         else:
             self.net = FakeNet(devplat, case.get("neg", 0), case.get("partial", False), case.get("login") == "refuse")
+            self.net.sync_socket = self.stack == "sync"
             self.t = self.conn.transport
             self._install_fake_net()
         self._instrument()
@@ -582,12 +617,20 @@ class Rig:
     def _timeout_fires(self):
         """the running operation's timer fires: exactly what scrapli.decorators does then"""
         from scrapli.decorators import _handle_timeout
-        self.net.trace.append(("stallfire",))
+        from scrapli.settings import Settings
+        self.net.trace.append(("stallfire", "keep") if Settings.NO_TERMINATE_ON_TIMEOUT else ("stallfire",))
         self.in_timeout = True
         try:
             _handle_timeout(transport=self.t, logger=self.t.logger, message="timed out (simulated timer)")
         finally:
             self.in_timeout = False
+
+    def _read_times_out(self):
+        """the transport's own read gives up on a silent device: ScrapliTimeout from the read, no handler, nothing closed
+        (what TelnetTransport._read does on socket.timeout; any plugin transport may)"""
+        from scrapli.exceptions import ScrapliTimeout
+        self.net.trace.append(("stallfire", "keep"))
+        raise ScrapliTimeout("timed out reading from transport")
 
     def _wrap_read(self):
         rig, t = self, self.t
@@ -610,6 +653,8 @@ class Rig:
                 try:
                     buf = read()
                 except SimStall:
+                    if rig.rtimeout:
+                        rig._read_times_out()
                     rig._timeout_fires()
                 except ScrapliConnectionError:
                     if telnet:
@@ -629,6 +674,8 @@ class Rig:
                 try:
                     buf = await read()
                 except SimStall:
+                    if rig.rtimeout:
+                        rig._read_times_out()
                     rig._timeout_fires()
                 except ScrapliConnectionError:
                     if telnet:
@@ -681,6 +728,9 @@ class Rig:
             return
         if fault[0] == "open":
             net.refuse_next_open = True
+        elif fault[0] == "read" and fault[2] == "rtimeout":
+            net.faults = [FaultPlan(at_read=net.nreads + fault[1], action="silent")]
+            self.rtimeout = net.rtimeout = True
         elif fault[0] == "read":
             net.faults = [FaultPlan(at_read=net.nreads + fault[1], action=fault[2])]
         elif fault[0] == "write":
@@ -689,6 +739,7 @@ class Rig:
     def disarm(self):
         self.net.faults = []
         self.net.refuse_next_open = False
+        self.rtimeout = self.net.rtimeout = False
 
 
 def exc_name(e):
@@ -722,7 +773,8 @@ def derive_events(seg, kind):
                 evs[cur][0] = "d"
         elif x[0] == "stallfire":
             if cur is not None:
-                evs[cur][0] = "s"
+                # "keep": ScrapliTimeout with the transport left as it is (NO_TERMINATE_ON_TIMEOUT / the transport read's own timeout)
+                evs[cur][0] = "k" if len(x) > 1 and x[1] == "keep" else "s"
         elif x[0] == "actend" and x[2] == "ScrapliAuthenticationFailed" and cur is not None and evs[cur][0] == "o":
             evs[cur][0] = "a"       # the device refused the login during this step
         elif x[0] == "actend" and kind != "sim":
@@ -754,7 +806,7 @@ def _result(rig, op, out, seg_start, fds0, thr0):
     fl = rig.flags()
     fl["fd_delta"] = fd_count() - fds0
     fl["thr_delta"] = threading.active_count() - thr0
-    return dict(op=op, out=out, marks=list(rig.marks), flags=fl, seg=list(rig.net.trace[seg_start:]),
+    return dict(op=op, out=out, marks=list(rig.marks), flags=fl, body_exc=rig.body_exc_name, left_with=rig.left_with, seg=list(rig.net.trace[seg_start:]),
                 on_close_raised=rig.on_close_raised, tclose_raised=rig.tclose_raised, injected_hook_exc=rig.injected_hook_exc, nreads=rig.net.nreads, nwrites=rig.net.nwrites)
 
 
@@ -788,6 +840,7 @@ def run_case_sync(case, rig_factory=None):
         rig = None
         try:
             fds0, thr0 = fd_count(), threading.active_count()
+            _Settings.NO_TERMINATE_ON_TIMEOUT = bool(case.get("no_terminate"))
             rig = (rig_factory or Rig)(case, tmp)
             conn = rig.conn
             results = []
@@ -796,6 +849,7 @@ def run_case_sync(case, rig_factory=None):
                 rig.on_close_raised = False
                 rig.tclose_raised = False
                 rig.injected_hook_exc = None
+                rig.body_exc = rig.body_exc_name = rig.left_with = None
                 seg_start = len(rig.net.trace)
                 r0, w0 = rig.net.nreads, rig.net.nwrites
                 rig.arm(spec.get("fault"))
@@ -825,11 +879,22 @@ def run_case_sync(case, rig_factory=None):
                                         elif b == "r":
                                             rig.mark("raise")
                                             raise BodyError("body failed")
+                                        elif b in BODY_RAISES:
+                                            rig.mark("raise")
+                                            raise body_exception(b)
+                                except BaseException as be:
+                                    rig.body_exc = be
+                                    rig.body_exc_name = exc_name(be)
+                                    raise
                                 finally:
                                     rig.mark("exit")
-                        except BaseException:
+                            if rig.body_exc is not None:
+                                rig.left_with = "swallowed"
+                        except BaseException as we:
                             if not entered:
                                 rig.mark("enter-raised")
+                            elif rig.body_exc is not None:
+                                rig.left_with = "same" if we is rig.body_exc else "replaced"
                             raise
                     else:
                         raise RigTrouble(f"unknown op {op}")
@@ -839,6 +904,12 @@ def run_case_sync(case, rig_factory=None):
                     raise RigTrouble(f"unconverted stall in {op}") from e
                 except Exception as e:   # noqa
                     out = exc_name(e)
+                except (BodyBaseException, asyncio.CancelledError) as e:
+                    out = exc_name(e)
+                    t_ = asyncio.current_task() if rig.stack == "async" else None
+                    if t_ is not None and hasattr(t_, "uncancel"):
+                        t_.uncancel()
+                rig.body_exc = None
                 rig.disarm()
                 rig.net.trace.append(("opend", op, None if out == "ret" else out))
                 rig.settle()
@@ -847,6 +918,7 @@ def run_case_sync(case, rig_factory=None):
                 results.append(res)
             return results
         finally:
+            _Settings.NO_TERMINATE_ON_TIMEOUT = False
             if rig is not None:
                 rig.dispose()
             os.chdir(cwd)
@@ -859,6 +931,7 @@ async def run_case_async(case, rig_factory=None):
         rig = None
         try:
             fds0, thr0 = fd_count(), threading.active_count()
+            _Settings.NO_TERMINATE_ON_TIMEOUT = bool(case.get("no_terminate"))
             rig = (rig_factory or Rig)(case, tmp)
             conn = rig.conn
             results = []
@@ -867,6 +940,7 @@ async def run_case_async(case, rig_factory=None):
                 rig.on_close_raised = False
                 rig.tclose_raised = False
                 rig.injected_hook_exc = None
+                rig.body_exc = rig.body_exc_name = rig.left_with = None
                 seg_start = len(rig.net.trace)
                 r0, w0 = rig.net.nreads, rig.net.nwrites
                 rig.arm(spec.get("fault"))
@@ -896,11 +970,28 @@ async def run_case_async(case, rig_factory=None):
                                         elif b == "r":
                                             rig.mark("raise")
                                             raise BodyError("body failed")
+                                        elif b == "Z":
+                                            # a real cancellation: the task running the with-block is cancelled while the body awaits
+                                            rig.mark("raise")
+                                            asyncio.current_task().cancel()
+                                            await asyncio.sleep(0)
+                                            raise RigTrouble("cancellation was not delivered")
+                                        elif b in BODY_RAISES:
+                                            rig.mark("raise")
+                                            raise body_exception(b)
+                                except BaseException as be:
+                                    rig.body_exc = be
+                                    rig.body_exc_name = exc_name(be)
+                                    raise
                                 finally:
                                     rig.mark("exit")
-                        except BaseException:
+                            if rig.body_exc is not None:
+                                rig.left_with = "swallowed"
+                        except BaseException as we:
                             if not entered:
                                 rig.mark("enter-raised")
+                            elif rig.body_exc is not None:
+                                rig.left_with = "same" if we is rig.body_exc else "replaced"
                             raise
                     else:
                         raise RigTrouble(f"unknown op {op}")
@@ -910,6 +1001,12 @@ async def run_case_async(case, rig_factory=None):
                     raise RigTrouble(f"unconverted stall in {op}") from e
                 except Exception as e:   # noqa
                     out = exc_name(e)
+                except (BodyBaseException, asyncio.CancelledError) as e:
+                    out = exc_name(e)
+                    t_ = asyncio.current_task() if rig.stack == "async" else None
+                    if t_ is not None and hasattr(t_, "uncancel"):
+                        t_.uncancel()
+                rig.body_exc = None
                 rig.disarm()
                 rig.net.trace.append(("opend", op, None if out == "ret" else out))
                 await rig.asettle()
@@ -918,6 +1015,7 @@ async def run_case_async(case, rig_factory=None):
                 results.append(res)
             return results
         finally:
+            _Settings.NO_TERMINATE_ON_TIMEOUT = False
             if rig is not None:
                 rig.dispose()
             os.chdir(cwd)
